@@ -7,6 +7,7 @@ VARIABLE l
 ProfC01 == [C01 |-> TRUE, C07 |-> FALSE, X |-> FALSE]
 ProfC07 == [C01 |-> FALSE, C07 |-> TRUE, X |-> FALSE]
 ProfAll == [C01 |-> TRUE, C07 |-> TRUE, X |-> TRUE]
+ProfBoth == [C01 |-> TRUE, C07 |-> TRUE, X |-> FALSE]
 Rec == ndJsonDeserialize(IOEnv.TRACE)
 E == Rec[l]
 tvars == <<cfg, now, st, deadline, gid, gout, infl, ngate, lis, ev, l>>
